@@ -406,12 +406,15 @@ class Extern:
 EXTERNS = {"digital_rf_get_time_parts": Extern("digital_rf_get_time_parts", 1, 6)}
 
 
-def translate_functions(src, names, repo="/repo", extra_imports=""):
+def translate_functions(src, names, repo="/repo", extra_imports="", emit=None):
+    """translate `names` in order (callees first); only those in `emit` (default all) are printed"""
     known = dict(EXTERNS)
     text = HEADER % src.replace(repo + "/", "") + extra_imports
     for nm in names:
         f = Fn(clang_ast(src, nm, repo), known)
-        text += f.translate() + "\n"
+        t = f.translate()
+        if emit is None or nm in emit:
+            text += t + "\n"
         known[nm] = f
     return text
 
